@@ -396,8 +396,10 @@ Section Concrete.
     eexists. split; [reflexivity|]. apply ok_remove. intro q. simpl.
     apply (get_rmtree (w_fs w) jd _ q R).
   Qed.
-  (* fix 270ca63: init() through a handle whose state point cannot be loaded has no effect at all *)
-  Lemma sp_access_fail_same : forall w h w1 e, sp_access frepr w h = (w1, inr e) -> w1 = w.
+  (* fix 270ca63: init() through a handle whose state point cannot be loaded has no effect on the tree, the
+     handles or the cells (only the lock registry learns the file name) *)
+  Lemma sp_access_fail_same : forall w h w1 e, sp_access frepr w h = (w1, inr e) ->
+    w1 = lock_add w (spfile w (getH w h)).
   Proof.
     intros w h w1 e H. unfold sp_access in H.
     destruct (h_cell (getH w h)); [discriminate|]. destruct (h_cached (getH w h)); [discriminate|].
@@ -405,10 +407,19 @@ Section Concrete.
   Qed.
 
   Lemma init_unloadable_no_effect : forall susp force w h w1 e,
-    sp_access frepr w h = (w1, inr e) -> init frepr susp force w h = (w, inr e).
+    sp_access frepr w h = (w1, inr e) ->
+    exists w', init frepr susp force w h = (w', inr e) /\
+      w_fs w' = w_fs w /\ w_tr w' = w_tr w /\ w_hs w' = w_hs w /\ w_cs w' = w_cs w /\ w_ss w' = w_ss w.
   Proof.
     intros susp force w h w1 e H. pose proof (sp_access_fail_same w h w1 e H) as ->.
-    unfold init. rewrite H. rewrite H. reflexivity.
+    unfold init. rewrite H.
+    assert (H2 : sp_access frepr (lock_add w (spfile w (getH w h))) h
+                 = (lock_add (lock_add w (spfile w (getH w h))) (spfile w (getH w h)), inr e)).
+    { unfold sp_access in *. change (getH (lock_add w (spfile w (getH w h))) h) with (getH w h).
+      destruct (h_cell (getH w h)); [discriminate|]. destruct (h_cached (getH w h)); [discriminate|].
+      change (load_file frepr (lock_add w (spfile w (getH w h))) (getH w h)) with (load_file frepr w (getH w h)).
+      destruct (load_file frepr w (getH w h)); inversion H; reflexivity. }
+    rewrite H2. eexists. split; [reflexivity|]. repeat split; reflexivity.
   Qed.
 
   (* fix b6340e2: a string that is not exactly an id never resolves, whatever exists in the workspace *)
